@@ -144,20 +144,20 @@ theorem LineWf.covers_iff {L : Nat} {l : Line} (h : LineWf L l) (hL : 0 < L) (x 
   rw [Proofs.LC.covers_iff, h.hi]
   exact block_iff_base L l.lo x (by omega) hx h.aligned
 
-/-- two resident lines with the same base are the same line -/
-theorem DWf.unique {L n : Nat} {c : Cache} (h : DWf L n c) {l1 l2 : Line} (h1 : l1 ∈ c.lines) (h2 : l2 ∈ c.lines)
-    (he : l1.lo = l2.lo) : l1 = l2 := by
-  have := h.distinct
-  generalize c.lines = ls at h1 h2 this
-  induction this with
+/-- two lines of a duplicate-free list with the same base are the same line -/
+theorem lines_unique {ls : List Line} (hd : ls.Pairwise (fun a b => a.lo ≠ b.lo)) {l1 l2 : Line}
+    (h1 : l1 ∈ ls) (h2 : l2 ∈ ls) (he : l1.lo = l2.lo) : l1 = l2 := by
+  induction hd with
   | nil => cases h1
   | cons hx _ ih =>
-    rename_i x xs
     rcases List.mem_cons.mp h1 with rfl | h1' <;> rcases List.mem_cons.mp h2 with rfl | h2'
     · rfl
     · exact absurd he (hx _ h2')
     · exact absurd he.symm (hx _ h1')
     · exact ih h1' h2'
+
+theorem DWf.unique {L n : Nat} {c : Cache} (h : DWf L n c) {l1 l2 : Line} (h1 : l1 ∈ c.lines) (h2 : l2 ∈ c.lines)
+    (he : l1.lo = l2.lo) : l1 = l2 := lines_unique h.distinct h1 h2 he
 
 /-- the invariant depends on the lines only up to order -/
 theorem DWf.perm {L n : Nat} {c : Cache} (h : DWf L n c) (ls : List Line) (hp : ls.Perm c.lines) :
@@ -354,5 +354,381 @@ theorem Coh.evict {pre post : List Line} {x : Line} {mem flat mem' : List Byte} 
       · rcases List.mem_cons.mp hl with rfl | hl
         · exact hc'
         · exact hu l (List.mem_append_right _ hl)
+
+/-- **load-miss fill**: when no resident line covers the (non-negative) first address, fetching its block
+and pushing it — evicting and writing back the last line when the cache is full — succeeds, keeps the
+structural invariant and the coherence with the SAME flat memory, and makes the block resident. -/
+theorem fill_ok {cfg : Config} {L n : Nat} (hcfg : cfg.l1DLineSize = L) (hL : 0 < L) (hn : 0 < n)
+    {u : Mmu} {mem flat : List Byte} (hw : DWf L n u.l1d) (hc : Coh u.l1d.lines mem flat)
+    (a0 : Word) (h0 : 0 ≤ a0.toInt) (hmiss : ∀ y ∈ u.l1d.lines, y.covers a0.toInt = false) :
+    ∃ line u' mem', fetchCacheLine cfg mem a0 = .ok line ∧ pushLineToL1D cfg u mem a0 line = .ok (u', mem') ∧
+      u'.l1i = u.l1i ∧ DWf L n u'.l1d ∧ Coh u'.l1d.lines mem' flat ∧ ∃ l ∈ u'.l1d.lines, l.lo = base L a0.toInt := by
+  obtain ⟨hb0, hb1, hb2, hb3⟩ := base_spec L a0.toInt (by omega) h0
+  generalize hbdef : base (L : Int) a0.toInt = b at hb0 hb1 hb2 hb3
+  have hfetch := fetchCacheLine_ok cfg L hcfg hL mem a0 h0
+  rw [hbdef] at hfetch
+  generalize hline : padTake (mem.drop b.toNat) L = line at hfetch
+  have hlinelen : line.length = L := by rw [← hline]; exact padTake_length _ _
+  -- the new line
+  let nl : Line := LineCache.newLine u.l1d b line
+  have hnlwf : LineWf L nl :=
+    { hi := by show b + (u.l1d.lineLength : Int) = b + L; rw [hw.lineLength],
+      len := hlinelen, nonneg := hb0, aligned := hb3 }
+  -- no resident line starts at b
+  have hfresh : ∀ y ∈ u.l1d.lines, y.lo ≠ b := by
+    intro y hy he
+    have := ((hw.lines y hy).covers_iff hL a0.toInt h0).mpr (by rw [he, hbdef])
+    rw [hmiss y hy] at this; cases this
+  have hnlcoh : ∀ x : Nat, nl.covers x = true → x < flat.length → nl.data[((x : Int) - nl.lo).toNat]? = flat[x]? := by
+    intro x hcx hx
+    have hcc := (hnlwf.covers_iff hL x (by omega)).mp hcx
+    have hrange := (Proofs.LC.covers_iff nl x).mp hcx
+    rw [hnlwf.hi] at hrange
+    have hun : ∀ l ∈ u.l1d.lines, l.covers x = false := by
+      intro l hl
+      cases hlc : l.covers x with
+      | false => rfl
+      | true =>
+        have := ((hw.lines l hl).covers_iff hL x (by omega)).mp hlc
+        exact absurd (this.trans hcc.symm) (hfresh l hl)
+    rw [← hc.uncached x hx hun]
+    show line[((x : Int) - b).toNat]? = mem[x]?
+    have hnl : nl.lo = b := rfl
+    rw [hnl] at hrange
+    rw [← hline]
+    have e : ((x : Int) - b).toNat = x - b.toNat := by omega
+    rw [e]
+    exact fetched_bytes mem b.toNat L x (by omega) (by omega) (by rw [hc.len]; exact hx)
+  have hcoh1 : Coh (nl :: u.l1d.lines) mem flat := hc.push nl hnlcoh
+  have hlines1 : ∀ l ∈ nl :: u.l1d.lines, LineWf L l := by
+    intro l hl
+    rcases List.mem_cons.mp hl with rfl | hl
+    · exact hnlwf
+    · exact hw.lines l hl
+  have hdist1 : (nl :: u.l1d.lines).Pairwise (fun a b => a.lo ≠ b.lo) :=
+    List.pairwise_cons.mpr ⟨fun y hy => Ne.symm (hfresh y hy), hw.distinct⟩
+  refine ⟨line, ?_⟩
+  unfold pushLineToL1D
+  rw [hcfg, alignDown_ok _ _ (by omega), hbdef]
+  simp only [bind, Except.bind, pushLineWithEvictionWarning]
+  by_cases hfull : (LineCache.newLine u.l1d b line :: u.l1d.lines).length > u.l1d.numberOfLines
+  · -- the cache overflows: the last line is the victim
+    simp only [hfull, if_true]
+    have hne : u.l1d.lines ≠ [] := by
+      intro h
+      rw [h, hw.numberOfLines] at hfull
+      simp at hfull; omega
+    have hlast : (nl :: u.l1d.lines).getLast? = some (u.l1d.lines.getLast hne) := by
+      rw [List.getLast?_cons_of_ne_nil hne, List.getLast?_eq_some_getLast hne]
+    generalize hev : u.l1d.lines.getLast hne = ev at hlast
+    have hevm : ev ∈ u.l1d.lines := by rw [← hev]; exact List.getLast_mem hne
+    have hevwf := hw.lines ev hevm
+    have hevcov : ev.covers ev.lo = true := by
+      rw [Proofs.LC.covers_iff, hevwf.hi]; omega
+    obtain ⟨pre, x, post, hs⟩ := splitAt_isSome (a := ev.lo) ⟨ev, List.mem_cons_of_mem nl hevm, hevcov⟩
+    obtain ⟨hsplit, hxcov, _⟩ := splitAt_some hs
+    have hxm : x ∈ nl :: u.l1d.lines := by rw [hsplit]; simp
+    have hxev : x = ev := by
+      apply lines_unique hdist1 hxm (List.mem_cons_of_mem nl hevm)
+      have h1 := ((hlines1 x hxm).covers_iff hL ev.lo hevwf.nonneg).mp hxcov
+      have h2 := (hevwf.covers_iff hL ev.lo hevwf.nonneg).mp hevcov
+      exact h1.trans h2.symm
+    subst hxev
+    have hpos : 0 < x.data.length := by rw [hevwf.len]; exact hL
+    have hat : x.at x.lo = .ok (x.data[0]'hpos) := by
+      unfold Line.at
+      simp only [Int.sub_self, Int.toNat_zero, List.getElem?_eq_getElem hpos]
+      rfl
+    obtain ⟨mem', hwb, _, _⟩ := writeToMemory_spec mem x.lo x.data hevwf.nonneg
+    refine ⟨{ u with l1d := { u.l1d with lines := pre ++ post } }, mem', hfetch, ?_, rfl, ?_, ?_, ?_⟩
+    · have hlast' : (LineCache.newLine u.l1d b line :: u.l1d.lines).getLast? = some x := hlast
+      have hs' : splitAt x.lo (LineCache.newLine u.l1d b line :: u.l1d.lines) = some (pre, x, post) := hs
+      simp only [hlast', evictCacheLine, hs', hat, hwb, bind, Except.bind]
+      rfl
+    · have hlen : (nl :: u.l1d.lines).length = pre.length + post.length + 1 := by
+        rw [hsplit]; simp; omega
+      exact { lineLength := hw.lineLength, numberOfLines := hw.numberOfLines,
+              lines := fun l hl => hlines1 l (by rw [hsplit]; exact mem_middle hl),
+              distinct := (List.Pairwise.sublist (by rw [hsplit]; exact sublist_middle pre post x) hdist1),
+              count := by
+                have := hw.count
+                simp only [List.length_cons] at hlen
+                simp only [List.length_append]; omega }
+    · rw [hsplit] at hcoh1
+      exact hcoh1.evict hevwf hwb
+    · refine ⟨nl, ?_, rfl⟩
+      have hnlm : nl ∈ pre ++ x :: post := by rw [← hsplit]; simp
+      rcases List.mem_append.mp hnlm with h | h
+      · exact List.mem_append_left _ h
+      · rcases List.mem_cons.mp h with h | h
+        · exact absurd (show x.lo = b by rw [← h]; rfl) (hfresh x hevm)
+        · exact List.mem_append_right _ h
+  · -- room left
+    simp only [hfull, if_false]
+    refine ⟨{ u with l1d := { u.l1d with lines := nl :: u.l1d.lines } }, mem, hfetch, rfl, rfl, ?_, hcoh1, nl, by simp, rfl⟩
+    exact { lineLength := hw.lineLength, numberOfLines := hw.numberOfLines, lines := hlines1, distinct := hdist1,
+            count := by rw [← hw.numberOfLines]; exact Nat.le_of_not_gt hfull }
+
+/-! ### the callers' contract unfolded -/
+
+theorem loadOk_spec {L : Int} {memLen : Nat} {a0 : Word} {as : List Word} (h : loadOk L memLen (a0 :: as) = true) :
+    ∀ a ∈ a0 :: as, 0 ≤ a.toInt ∧ a.toInt.toNat < memLen ∧ base L a.toInt = base L a0.toInt := by
+  intro a ha
+  unfold loadOk at h
+  have := List.all_eq_true.mp h a ha
+  simp only [Bool.and_eq_true, decide_eq_true_eq] at this
+  obtain ⟨⟨h1, h2⟩, h3⟩ := this
+  exact ⟨h1, by omega, h3⟩
+
+theorem consecutive_spec (a0 : Int) : ∀ (chs : List (Word × Byte)) (k : Nat), consecutive a0 chs k = true →
+    ∀ (i : Nat) (h : i < chs.length), (chs[i]'h).1.toInt = a0 + k + i
+  | [], _, _, i, h => by simp at h
+  | p :: ps, k, hc, i, h => by
+    simp only [consecutive, Bool.and_eq_true, decide_eq_true_eq] at hc
+    cases i with
+    | zero => simp [hc.1]
+    | succ j =>
+      have := consecutive_spec a0 ps (k + 1) hc.2 j (by simpa using h)
+      simp only [List.getElem_cons_succ, this]
+      omega
+
+theorem storeOk_spec {L : Int} {memLen : Nat} {chs : List (Word × Byte)} (h : storeOk L memLen chs = true) :
+    ∃ p ps, chs = p :: ps ∧ consecutive p.1.toInt chs 0 = true ∧
+      ∀ a ∈ chs.map (·.1), 0 ≤ a.toInt ∧ a.toInt.toNat < memLen ∧ base L a.toInt = base L p.1.toInt := by
+  cases chs with
+  | nil => simp [storeOk] at h
+  | cons p ps =>
+    simp only [storeOk, Bool.and_eq_true] at h
+    refine ⟨p, ps, rfl, h.1, ?_⟩
+    have := loadOk_spec (a0 := p.1) (as := ps.map (·.1)) (by simpa using h.2)
+    simpa using this
+
+/-! ### stores -/
+
+/-- `ctx.WriteMemory`'s effect on the byte list -/
+def applyChanges (m : List Byte) (chs : List (Word × Byte)) : List Byte :=
+  chs.foldl (fun m p => m.set p.1.toInt.toNat p.2) m
+
+theorem applyChanges_length (chs : List (Word × Byte)) : ∀ m : List Byte, (applyChanges m chs).length = m.length := by
+  induction chs with
+  | nil => intro m; rfl
+  | cons p ps ih => intro m; simp only [applyChanges, List.foldl_cons] at ih ⊢; rw [ih]; simp
+
+/-- consecutive in-range changes overwrite exactly their run of bytes -/
+theorem applyChanges_consecutive (a0 : Int) (h0 : 0 ≤ a0) : ∀ (chs : List (Word × Byte)) (k : Nat) (m : List Byte),
+    consecutive a0 chs k = true → a0 + k + chs.length ≤ m.length →
+    ∀ x : Nat, (applyChanges m chs)[x]? =
+      if a0 + k ≤ (x : Int) ∧ (x : Int) < a0 + k + chs.length then (chs.map (·.2))[x - (a0 + k).toNat]? else m[x]?
+  | [], k, m, _, _, x => by
+    have : ¬ (a0 + k ≤ (x : Int) ∧ (x : Int) < a0 + k + (([] : List (Word × Byte)).length : Nat)) := by
+      simp only [List.length_nil]; omega
+    simp only [this, if_false]; rfl
+  | p :: ps, k, m, hc, hlen, x => by
+    simp only [consecutive, Bool.and_eq_true, decide_eq_true_eq] at hc
+    simp only [List.length_cons] at hlen
+    have ih := applyChanges_consecutive a0 h0 ps (k + 1) (m.set p.1.toInt.toNat p.2) hc.2
+      (by simp only [List.length_set]; omega) x
+    have e : applyChanges m (p :: ps) = applyChanges (m.set p.1.toInt.toNat p.2) ps := rfl
+    rw [e, ih, hc.1]
+    simp only [List.length_cons, List.map_cons]
+    by_cases h1 : a0 + ((k + 1 : Nat) : Int) ≤ (x : Int) ∧ (x : Int) < a0 + ((k + 1 : Nat) : Int) + (ps.length : Nat)
+    · have h2 : a0 + (k : Int) ≤ (x : Int) ∧ (x : Int) < a0 + (k : Int) + ((ps.length + 1 : Nat) : Int) := by omega
+      simp only [h1, h2, and_self, if_true]
+      have : x - (a0 + (k : Int)).toNat = (x - (a0 + ((k + 1 : Nat) : Int)).toNat) + 1 := by omega
+      rw [this, List.getElem?_cons_succ]
+    · simp only [h1, if_false]
+      by_cases h3 : (x : Int) = a0 + k
+      · have h2 : a0 + (k : Int) ≤ (x : Int) ∧ (x : Int) < a0 + (k : Int) + ((ps.length + 1 : Nat) : Int) := by omega
+        have hx : (a0 + (k : Int)).toNat = x := by omega
+        simp only [h2, and_self, if_true, hx, Nat.sub_self, List.getElem?_cons_zero]
+        rw [List.getElem?_set_self (by omega)]
+      · have h2 : ¬ (a0 + (k : Int) ≤ (x : Int) ∧ (x : Int) < a0 + (k : Int) + ((ps.length + 1 : Nat) : Int)) := by omega
+        simp only [h2, if_false]
+        rw [List.getElem?_set_ne (by omega)]
+
+theorem writeMemory_ok (e : Gen.Execution) : ∀ (ctx : Model.Context),
+    (∀ p ∈ e.MemoryChanges, 0 ≤ p.1.toInt ∧ p.1.toInt.toNat < ctx.Memory.length) →
+    Model.Seq.writeMemory ctx e = some { ctx with Memory := applyChanges ctx.Memory e.MemoryChanges } := by
+  unfold Model.Seq.writeMemory applyChanges
+  generalize e.MemoryChanges = chs
+  induction chs with
+  | nil => intro ctx _; rfl
+  | cons p ps ih =>
+    intro ctx h
+    obtain ⟨h1, h2⟩ := h p (by simp)
+    have hn : ¬ (p.1.toInt < 0 ∨ ctx.Memory.length ≤ p.1.toInt.toNat) := by omega
+    simp only [List.foldlM_cons, hn, if_false, List.foldl_cons]
+    have := ih { ctx with Memory := ctx.Memory.set p.1.toInt.toNat p.2 }
+      (fun q hq => by simpa using h q (by simp [hq]))
+    simpa using this
+
+theorem slt_iff (a b : Word) : a.slt b = decide (a.toInt < b.toInt) := by
+  simp [BitVec.slt]
+
+theorem sortChanges_consecutive (a0 : Int) : ∀ (chs : List (Word × Byte)) (k : Nat), consecutive a0 chs k = true →
+    sortChanges chs = chs
+  | [], _, _ => rfl
+  | p :: ps, k, hc => by
+    simp only [consecutive, Bool.and_eq_true, decide_eq_true_eq] at hc
+    have ih := sortChanges_consecutive a0 ps (k + 1) hc.2
+    unfold sortChanges
+    rw [ih]
+    cases ps with
+    | nil => rfl
+    | cons q qs =>
+      have hq := hc.2
+      simp only [consecutive, Bool.and_eq_true, decide_eq_true_eq] at hq
+      have : q.1.slt p.1 = false := by
+        rw [slt_iff]; simp only [decide_eq_false_iff_not]; omega
+      simp only [insertChange, this, Bool.false_eq_true, if_false]
+
+/-- the raw result of `Write` into a resident full-length line when the run of bytes fits -/
+theorem write_fits {c : Cache} {a : Int} {d : List Byte} {pre post : List Line} {x : Line}
+    (hs : splitAt a c.lines = some (pre, x, post)) (hfit : (a - x.lo).toNat + d.length ≤ x.data.length)
+    (hd : 0 < d.length) :
+    LineCache.write c a d = .ok { c with lines := pre ++ { x with data := (setFrom x.data (a - x.lo).toNat d).1 } :: post } := by
+  obtain ⟨hok, _, _⟩ := setFrom_spec d x.data (a - x.lo).toNat hfit
+  have hlt : (a - x.lo).toNat < x.data.length := by omega
+  unfold LineCache.write writeState writeRaw
+  simp only [hs, List.getElem?_eq_getElem hlt]
+  generalize hsf : setFrom x.data (a - x.lo).toNat d = r at hok
+  obtain ⟨d', ok⟩ := r
+  simp only at hok
+  subst hok
+  rfl
+
+/-- **cached store**: when the line of a well-formed store is resident, `writeExecutionMemoryChangesToL1D`
+succeeds and the pair (memory, L1D) is coherent with the flat memory AFTER the store. -/
+theorem write_cached_ok {L n : Nat} (hL : 0 < L) {u : Mmu} {mem flat : List Byte}
+    (hw : DWf L n u.l1d) (hc : Coh u.l1d.lines mem flat) (e : Gen.Execution)
+    (hst : storeOk L flat.length e.MemoryChanges = true)
+    (hres : ∃ l ∈ u.l1d.lines, ∀ p ∈ e.MemoryChanges, l.lo = base L p.1.toInt) :
+    ∃ u', writeExecutionMemoryChangesToL1D u e = .ok u' ∧ u'.l1i = u.l1i ∧ DWf L n u'.l1d ∧
+      Coh u'.l1d.lines mem (applyChanges flat e.MemoryChanges) := by
+  obtain ⟨p, ps, hchs, hcons, hall⟩ := storeOk_spec hst
+  obtain ⟨l, hlm, hlb⟩ := hres
+  rw [hchs] at hcons hall hlb ⊢
+  have hp := hall p.1 (by simp)
+  have ha0 : 0 ≤ p.1.toInt := hp.1
+  -- the last address of the run lies in the same block
+  have hidx := consecutive_spec p.1.toInt (p :: ps) 0 hcons
+  have hlastm : ((p :: ps)[ps.length]'(by simp)).1 ∈ (p :: ps).map (·.1) :=
+    List.mem_map_of_mem (List.getElem_mem _)
+  have hlast := hall _ hlastm
+  have hlasta := hidx ps.length (by simp)
+  simp only [Int.natCast_zero, Int.add_zero] at hlasta
+  rw [hlasta] at hlast
+  have hlwf := hw.lines l hlm
+  have hlb0 := hlb p (by simp)
+  have hcov0 : l.covers p.1.toInt = true := (hlwf.covers_iff hL _ ha0).mpr hlb0
+  have hcovl : l.lo ≤ p.1.toInt + ps.length ∧ p.1.toInt + ps.length < l.lo + L :=
+    (block_iff_base L l.lo _ (by omega) hlast.1 hlwf.aligned).mpr (by rw [hlast.2.2, hlb0])
+  have hcov0' := (Proofs.LC.covers_iff l _).mp hcov0
+  obtain ⟨pre, x, post, hs⟩ := splitAt_isSome ⟨l, hlm, hcov0⟩
+  obtain ⟨hsplit, hxcov, _⟩ := splitAt_some hs
+  have hxm : x ∈ u.l1d.lines := by rw [hsplit]; simp
+  have hxl : x = l := hw.unique hxm hlm
+    ((((hw.lines x hxm).covers_iff hL _ ha0).mp hxcov).trans hlb0.symm)
+  subst hxl
+  have hfit : (p.1.toInt - x.lo).toNat + ((p :: ps).map (·.2)).length ≤ x.data.length := by
+    rw [hlwf.len]; simp only [List.length_map, List.length_cons]; omega
+  have hwr := write_fits (d := (p :: ps).map (·.2)) hs hfit (by simp)
+  obtain ⟨_, hdlen, hdget⟩ := setFrom_spec ((p :: ps).map (·.2)) x.data (p.1.toInt - x.lo).toNat hfit
+  generalize hd' : (setFrom x.data (p.1.toInt - x.lo).toNat ((p :: ps).map (·.2))).1 = d' at hwr hdlen hdget
+  have hflat' := applyChanges_consecutive p.1.toInt ha0 (p :: ps) 0 flat hcons (by
+    simp only [List.length_cons, Int.natCast_zero, Int.add_zero]; omega)
+  simp only [Int.natCast_zero, Int.add_zero] at hflat'
+  refine ⟨{ u with l1d := { u.l1d with lines := pre ++ { x with data := d' } :: post } }, ?_, rfl, ?_, ?_⟩
+  · unfold writeExecutionMemoryChangesToL1D
+    rw [hchs, sortChanges_consecutive _ _ 0 hcons]
+    simp only [writeToL1D, hwr, bind, Except.bind]
+    rfl
+  · -- structure: the line keeps base, bounds and length
+    have hx'wf : LineWf L { x with data := d' } :=
+      { hi := hlwf.hi, len := by show d'.length = L; rw [hdlen, hlwf.len], nonneg := hlwf.nonneg, aligned := hlwf.aligned }
+    refine { lineLength := hw.lineLength, numberOfLines := hw.numberOfLines, lines := ?_, distinct := ?_, count := ?_ }
+    · intro y hy
+      rcases List.mem_append.mp hy with h | h
+      · exact hw.lines y (by rw [hsplit]; exact List.mem_append_left _ h)
+      · rcases List.mem_cons.mp h with rfl | h
+        · exact hx'wf
+        · exact hw.lines y (by rw [hsplit]; exact List.mem_append_right _ (List.mem_cons_of_mem _ h))
+    · have hd := hw.distinct
+      rw [hsplit] at hd
+      have e1 : (pre ++ { x with data := d' } :: post).map (·.lo) = (pre ++ x :: post).map (·.lo) := by simp
+      have := (List.pairwise_map (f := fun (l : Line) => l.lo) (R := fun a b => a ≠ b)).mpr hd
+      rw [← e1] at this
+      exact List.pairwise_map.mp this
+    · have := hw.count
+      rw [hsplit] at this
+      simpa using this
+  · -- coherence with the updated flat memory
+    have hother : ∀ y ∈ pre ++ post, ∀ z : Nat, y.covers z = true →
+        ¬ (p.1.toInt ≤ (z : Int) ∧ (z : Int) < p.1.toInt + ((p :: ps).length : Nat)) := by
+      intro y hy z hcz hin
+      have hym : y ∈ u.l1d.lines := by rw [hsplit]; exact mem_middle hy
+      have hyx : y ≠ x := by
+        intro he
+        have hd := hw.distinct
+        rw [hsplit] at hd
+        have := List.pairwise_append.mp hd
+        rcases List.mem_append.mp hy with h | h
+        · exact this.2.2 y h x (by simp) (by rw [he])
+        · exact (List.pairwise_cons.mp this.2.1).1 y h (by rw [he])
+      have hyb := ((hw.lines y hym).covers_iff hL z (by omega)).mp hcz
+      have hxz : x.covers z = true := by
+        rw [Proofs.LC.covers_iff, hlwf.hi]
+        simp only [List.length_cons] at hin
+        omega
+      have hxb := (hlwf.covers_iff hL z (by omega)).mp hxz
+      exact hyx (hw.unique hym hxm (hyb.trans hxb.symm))
+    refine { len := by rw [applyChanges_length]; exact hc.len, cached := ?_, uncached := ?_ }
+    · intro y hy z hcz hz
+      rw [applyChanges_length] at hz
+      rw [hflat' z]
+      rcases List.mem_append.mp hy with h | h
+      · have := hother y (List.mem_append_left _ h) z hcz
+        simp only [this, if_false]
+        exact hc.cached y (by rw [hsplit]; exact List.mem_append_left _ h) z hcz hz
+      · rcases List.mem_cons.mp h with rfl | h
+        · -- the written line
+          have hcz' : x.covers z = true := hcz
+          have hzr := (Proofs.LC.covers_iff x z).mp hcz'
+          rw [hlwf.hi] at hzr
+          show d'[((z : Int) - x.lo).toNat]? = _
+          rw [hdget]
+          simp only [List.length_map]
+          by_cases hin : p.1.toInt ≤ (z : Int) ∧ (z : Int) < p.1.toInt + ((p :: ps).length : Nat)
+          · have h2 : (p.1.toInt - x.lo).toNat ≤ ((z : Int) - x.lo).toNat ∧
+                ((z : Int) - x.lo).toNat < (p.1.toInt - x.lo).toNat + (p :: ps).length := by
+              simp only [List.length_cons] at hin ⊢; omega
+            simp only [hin, h2, and_self, if_true]
+            congr 1; omega
+          · have h2 : ¬ ((p.1.toInt - x.lo).toNat ≤ ((z : Int) - x.lo).toNat ∧
+                ((z : Int) - x.lo).toNat < (p.1.toInt - x.lo).toNat + (p :: ps).length) := by
+              simp only [List.length_cons] at hin ⊢; omega
+            simp only [hin, h2, if_false]
+            exact hc.cached x hxm z hcz' hz
+        · have := hother y (List.mem_append_right _ h) z hcz
+          simp only [this, if_false]
+          exact hc.cached y (by rw [hsplit]; exact List.mem_append_right _ (List.mem_cons_of_mem _ h)) z hcz hz
+    · intro z hz hu
+      rw [applyChanges_length] at hz
+      rw [hflat' z]
+      have hxz : ({ x with data := d' } : Line).covers z = false := hu _ (by simp)
+      have hxz' : x.covers z = false := hxz
+      have hzr := (covers_false_iff x z).mp hxz'
+      rw [hlwf.hi] at hzr
+      have hin : ¬ (p.1.toInt ≤ (z : Int) ∧ (z : Int) < p.1.toInt + ((p :: ps).length : Nat)) := by
+        simp only [List.length_cons]; omega
+      simp only [hin, if_false]
+      apply hc.uncached z hz
+      intro y hy
+      rw [hsplit] at hy
+      rcases List.mem_append.mp hy with h | h
+      · exact hu y (List.mem_append_left _ h)
+      · rcases List.mem_cons.mp h with rfl | h
+        · exact hxz'
+        · exact hu y (List.mem_append_right _ (List.mem_cons_of_mem _ h))
 
 end Proofs.Mmu
